@@ -2626,14 +2626,23 @@ struct Explorer {
     if (!sc.init.empty() && sc.ops[sc.init.back()].kind == Op::kNinja && sc.ops[sc.init.back()].targets.empty() &&
         sc.ops[sc.init.back()].cfg.faults.empty())
       w0.base = make_shared<vfs::Disk>(w0.disk);
-    unordered_set<string> seen;
+    // Visited set: 128-bit digests of the canonical keys (two independent 64-bit hashes); the keys
+    // themselves are ~1 KiB each and made the deep tiers run out of memory.
+    struct KeyHash { size_t operator()(const pair<uint64_t, uint64_t>& k) const { return (size_t)(k.first ^ (k.second * 0x9e3779b97f4a7c15ull)); } };
+    unordered_set<pair<uint64_t, uint64_t>, KeyHash> seen;
+    auto digest = [](const string& k) {
+      uint64_t a = 1469598103934665603ull, b = 0x2545f4914f6cdd1dull;
+      for (unsigned char c : k) { a = (a ^ c) * 1099511628211ull; b = (b + c) * 0x9e3779b97f4a7c15ull; b ^= b >> 29; }
+      return make_pair(a, b);
+    };
     deque<pair<World, int>> frontier;
-    seen.insert(WorldKey(w0.disk));
+    seen.insert(digest(WorldKey(w0.disk)));
     frontier.push_back({w0, 0});
     st.states = 1;
     int depth = depth_override >= 0 ? depth_override : sc.depth;
+    const uint64_t kMaxStates = 3000000;   // per scenario; beyond it the scenario is reported as incomplete
     while (!frontier.empty()) {
-      if (TimeUp()) { st.complete = false; break; }
+      if (TimeUp() || st.states > kMaxStates) { st.complete = false; break; }
       World w = frontier.front().first;
       int dpt = frontier.front().second;
       frontier.pop_front();
@@ -2646,10 +2655,11 @@ struct Explorer {
           for (auto& s : succ) {
             st.transitions++;
             string key = WorldKey(s.disk);
-            if (!seen.insert(key).second) continue;
+            if (!seen.insert(digest(key)).second) continue;
             st.states++;
             if (s.tainted) { st.tainted++; continue; }
             if (!s.expand) continue;
+            if (dpt + 1 >= depth) continue;   // leaves are counted, not stored
             World nw;
             nw.disk = s.disk;
             nw.hist = w.hist;
@@ -2665,8 +2675,9 @@ struct Explorer {
           if (!sc.twin_variants.empty()) ApplySimple(op, &nw.twin, true);
           st.transitions++;
           string key = WorldKey(nw.disk);
-          if (!seen.insert(key).second) continue;
+          if (!seen.insert(digest(key)).second) continue;
           st.states++;
+          if (dpt + 1 >= depth) continue;
           nw.hist.push_back({(int)opi, {}});
           nw.nchanges = w.nchanges + 1;
           frontier.push_back({nw, dpt + 1});
